@@ -282,3 +282,32 @@ def run(ctx):
     from .. import numeric
     _run(ctx)
     numeric.arith_base(ctx, "C15.B1")
+    from .. import compose
+    from . import c05
+    P = ctx.P
+    r3 = ctx.inst("C15.R3", "the guard sees what the statement talks about: the handler's tolerance is the message's slippage_tolerance unchanged at every entry, deposits are paired with pools by asset equality and every native pool is net of the caller's deposit (shared with C05.R3/R4)", floor=3)
+    try:
+        pr = roles.PairRoles(P)
+        f = pr.provide_handler
+        pa = common.param_access(P, f, r"^std::option::Option<cosmwasm_std::\S*Decimal>$")
+        if pa is None:
+            raise AnchorMissing("provide handler's Option<Decimal> parameter")
+        ex_enum = ctx.N.exec_enum("pair")
+        n = 0
+        for c, cb in P.callers(f.path):
+            if "::tests::" in c.path:
+                continue
+            n += 1
+            mi = common.param_index_of_type(c, "^%s$" % re.escape(ex_enum))
+            got = pa.arg_roots(ctx.R, P.val_call(c, c.body, cb))
+            want = {P_(c, mi, "~ProvideLiquidity.slippage_tolerance")} if mi is not None else None
+            if want is None or got != want:
+                r3.fail("C15.R3:tolerance-forwarding:%s" % c.path, c.path, common.span_of_block_term(c, cb),
+                        "the provide handler receives tolerance ⊢ %s, expected exactly the message's slippage_tolerance: a given tolerance (0 included) must reach the guard unchanged" % sorted(got))
+            else:
+                r3.site("%s forwards the message's slippage_tolerance unchanged" % c.path)
+        if n == 0:
+            r3.fail("C15.R3:anchor", f.path, f.span, "anchor-missing: no caller of the provide handler")
+    except AnchorMissing as e:
+        r3.fail("C15.R3:anchor", "-", "-", "anchor-missing: %s" % e)
+    compose.pull(ctx, r3, c05, {"C05.R3", "C05.R4"}, "C15.R3")
